@@ -2513,12 +2513,27 @@ namespace bloch::compiler {
             node.collection->accept(*this);
         if (node.index)
             node.index->accept(*this);
+        auto isVoidValue = [&](Expression* e) {
+            auto t = inferTypeInfo(e);
+            return e && t.className.empty() && t.value == ValueType::Void;
+        };
+        if (isVoidValue(node.collection.get()) || isVoidValue(node.index.get())) {
+            throw BlochError(ErrorCategory::Semantic, node.line, node.column,
+                             "the result of a 'void' call cannot be indexed or used as an index");
+        }
     }
 
     void SemanticAnalyser::visit(ArrayLiteralExpression& node) {
-        for (auto& el : node.elements)
-            if (el)
-                el->accept(*this);
+        for (auto& el : node.elements) {
+            if (!el)
+                continue;
+            el->accept(*this);
+            auto t = inferTypeInfo(el.get());
+            if (t.className.empty() && t.value == ValueType::Void) {
+                throw BlochError(ErrorCategory::Semantic, node.line, node.column,
+                                 "the result of a 'void' call cannot be an array element");
+            }
+        }
     }
 
     void SemanticAnalyser::visit(ParenthesizedExpression& node) {
